@@ -1,9 +1,6 @@
 (** * Model of the copies that feed / replace the kick maps in a run (C08, C01):
 
-    - [copy_loop]: a counting copy [for i < cnt: dst[didx i] = src[sidx i]] (what std::copy_n,
-      std::copy and a hand-written loop all do), executed element by element in program order;
-    - [ident_apply]: Identity::apply (inc/SM/Identity.hpp), the copy of the whole bunch-major grid,
-      with the element count and indices generated from the source (Gen/Gen_Identity.v);
+    - ([copy_loop] and [ident_apply], the counting copy and Identity::apply, are in Model/Copy.v)
     - the kick-map state [_offset], [_hinfo] and the two statements of WakePotentialMap::update in
       the generated program order (Gen/Gen_WakeUpdate.v): the copy of the array wakePotential()
       returns into [_offset], and KickMap::updateSM over [_offset.size()] entries with the generated
@@ -13,20 +10,9 @@
     No proofs here. *)
 From Coq Require Import List ZArith QArith Qcanon Bool.
 From Inovesa Require Import Base.FieldKit Base.Float32 Gen.Gen_Coeffs Model.Kick Model.RunKinds
-  Gen.Gen_WakeUpdate Gen.Gen_Identity.
+  Gen.Gen_WakeUpdate Gen.Gen_Identity Model.Copy.
 Import ListNotations.
 Local Open Scope Z_scope.
-
-Definition upd {A} (f : Z -> A) (k : Z) (v : A) (i : Z) : A := if i =? k then v else f i.
-
-(** [for (i = 0; i < cnt; i++) dst[didx i] = src[sidx i]] *)
-Definition copy_loop {A} (cnt : Z) (sidx didx : Z -> Z) (src dst : Z -> A) : Z -> A :=
-  fold_left (fun d i => upd d (didx i) (src (sidx i))) (zrange cnt) dst.
-
-(** ** Identity::apply on [nb] bunches of [nx*ny] cells; [old] is what the target grid held *)
-Definition ident_apply (nb nx ny : Z) (inp old : Z -> Qc) : Z -> Qc :=
-  let nxy := nx * ny in let nxyb := nb * nx * ny in
-  copy_loop (id_count nb nx ny nxy nxyb) (id_src_idx nb nx ny nxy nxyb) (id_dst_idx nb nx ny nxy nxyb) inp old.
 
 (** ** the kick map of the wake kick *)
 Record kmstate := mkKM { km_offset : Z -> Qc; km_hinfo : Z -> Z * Qc }.
